@@ -97,29 +97,74 @@ def outcome_of(p):
 
 
 # ================================================================================================ T1 / T2
-def _chunk_term(t):
-    """*unwrap_or(get(self.metadata.field_generations, field_name), &0)"""
+def _peel_default0(t):
+    """x.unwrap_or(0) / *x.unwrap_or(&0) / x.unwrap_or_default() / x.copied()...  ->  x  (None if no zero default)"""
     t = strip_refs(t)
-    if not is_call(t, "Option<T>::unwrap_or"):
+    if not isinstance(t, tuple) or t[0] != "call":
+        return None
+    k = t[1]
+    if k in ("Option<T>::unwrap_or", "Option<T>::map_or") and len(t[3]) >= 2:
+        d = strip_refs(t[3][1]) if k.endswith("unwrap_or") else strip_refs(t[3][1])
+        x = t[3][0]
+        if k.endswith("map_or"):
+            d, x = strip_refs(t[3][1]), t[3][0]
+        if guards.rng(d) != (0, 0):
+            return None
+    elif k == "Option<T>::unwrap_or_default":
+        x = t[3][0]
+    else:
+        return None
+    x = strip_refs(x)
+    while isinstance(x, tuple) and x[0] == "call" and x[1] in ("Option<&T>::copied", "Option<&T>::cloned", "Option<T>::copied",
+                                                              "Option<T>::cloned", "Option<T>::as_deref"):
+        x = strip_refs(x[3][0])
+    return x
+
+
+def _lookup_in(t, key_arg, *field_chain):
+    """t is map.get(key) on self.<field_chain> with the key being parameter number `key_arg`"""
+    t = strip_refs(t)
+    if not (isinstance(t, tuple) and t[0] == "call" and t[1].split("::")[-1] in ("get", "get_key_value") and len(t[3]) == 2):
         return False
-    g = strip_refs(t[3][0])
-    dflt = strip_refs(t[3][1])
-    return is_call(g, "HashMap<K, V, S, A>::get") and self_field(g[3][0], "metadata", "field_generations") and \
-        arg_named(g[3][1], "field_name") and guards.rng(dflt) == (0, 0)
+    k = strip_refs(t[3][1])
+    return self_field(t[3][0], *field_chain) and k[0] == "arg" and k[1] == key_arg
+
+
+def _chunk_term(t):
+    """the generation of the field: metadata.field_generations[field_name], defaulting to 0"""
+    x = _peel_default0(t)
+    return x is not None and _lookup_in(x, 2, "metadata", "field_generations")
 
 
 def _optsince_term(t):
-    t = strip_refs(t)
-    if not is_call(t, "Option<T>::unwrap_or"):
-        return False
-    g = strip_refs(t[3][0])
-    return is_call(g, "HashMap<K, V, S, A>::get") and self_field(g[3][0], "metadata", "made_optional_at") and \
-        arg_named(g[3][1], "field_name") and guards.rng(strip_refs(t[3][1])) == (0, 0)
+    x = _peel_default0(t)
+    return x is not None and _lookup_in(x, 2, "metadata", "made_optional_at")
+
+
+def _member(e, key_pred, *field_chain):
+    """membership test of a key in self.<field_chain>: contains / contains_key / get(..).is_some(); returns +1, -1 (negated) or 0"""
+    e = strip_refs(e)
+    if not isinstance(e, tuple) or e[0] != "call":
+        return 0
+    last = e[1].split("::")[-1]
+    if last in ("contains", "contains_key") and len(e[3]) == 2 and self_field(e[3][0], *field_chain) and key_pred(e[3][1]):
+        return 1
+    if last in ("is_some", "is_none") and e[3]:
+        g = strip_refs(e[3][0])
+        if isinstance(g, tuple) and g[0] == "call" and g[1].split("::")[-1] == "get" and len(g[3]) == 2 and \
+                self_field(g[3][0], *field_chain) and key_pred(g[3][1]):
+            return 1 if last == "is_some" else -1
+    return 0
+
+
+def _is_arg(n):
+    return lambda t: strip_refs(t)[0] == "arg" and strip_refs(t)[1] == n
 
 
 def m_removed(e):
-    if is_call(e, "HashSet<T, S, A>::contains") and self_field(e[3][0], "removed_fields") and arg_named(e[3][1], "field_name"):
-        return "removed"
+    m = _member(e, _is_arg(2), "removed_fields")
+    if m:
+        return "removed" if m > 0 else ("removed", True)
 
 
 def m_missing(e):
@@ -151,13 +196,16 @@ def m_before_optional(e):
 def m_has_inputs(e):
     if is_call(e, "Vec<T, A>::is_empty") and self_field(e[3][0], "inputs"):
         return ("has_inputs", True)
+    if e[0] == "bin" and e[1] in ("Eq", "Ne", "Gt") and guards.rng(e[3]) == (0, 0):
+        l = strip_refs(e[2])
+        if (l[0] == "len" and self_field(l[1], "inputs")) or (l[0] == "call" and l[1].endswith("::len") and self_field(l[3][0], "inputs")):
+            return ("has_inputs", True) if e[1] == "Eq" else "has_inputs"
 
 
 def m_made_optional(e):
-    if is_call(e, "BTreeMap<K, V, A>::contains_key") and self_field(e[3][0], "made_optional_at"):
-        k = strip_refs(e[3][1])
-        if is_call(k, "AdtDeserializer::record_field_index"):
-            return "made_optional"
+    m = _member(e, lambda k: is_call(k, "AdtDeserializer::record_field_index"), "made_optional_at")
+    if m:
+        return "made_optional" if m > 0 else ("made_optional", True)
 
 
 def m_is_defined(e):
@@ -167,7 +215,7 @@ def m_is_defined(e):
 
 
 def m_default(c):
-    if c[0] == "discr" and arg_named(c[1], "field_default"):
+    if c[0] == "discr" and strip_refs(c[1])[0] == "arg" and strip_refs(c[1])[1] == 3:
         return "default"
 
 
@@ -217,7 +265,7 @@ def read_field(an, rep):
                 okk = kind == "ok" and not reads and not flag
                 if okk:
                     v = strip_refs(what)
-                    okk = v[0] == "agg" and v[3] == "Ok" and "field_default" in show(v[4][0])
+                    okk = v[0] == "agg" and v[3] == "Ok" and any(x[0] == "arg" and x[1] == 3 for x in mir.walk_expr(v[4][0]))
                 R.check(okk, b.key, "row missing+default", "missing chunk with default: outcome %s %s" % (kind, show(what) if kind == "ok" else what),
                         None, sample={"row": "missing+default", "when": desc})
             elif val.get("default") == "None":
@@ -292,7 +340,7 @@ def read_optional_field(an, rep):
         if val.get("missing") is True:
             if val.get("default") == "Some":
                 rows["missing+default"] += 1
-                R.check(kind == "ok" and not reads_t and not reads_opt and "field_default" in show(what), b.key,
+                R.check(kind == "ok" and not reads_t and not reads_opt and any(x[0] == "arg" and x[1] == 3 for x in mir.walk_expr(what)), b.key,
                         "row missing+default", "outcome %s" % kind)
             elif val.get("default") == "None":
                 rows["missing-nodefault"] += 1
